@@ -1,3 +1,4 @@
+mod alloc;
 mod case;
 mod dd;
 mod diff;
@@ -10,6 +11,9 @@ mod runner;
 mod spec;
 
 use std::io::{BufWriter, Write};
+
+#[global_allocator]
+static GLOBAL: alloc::Counting = alloc::Counting;
 
 fn jstr(s: &str) -> String {
     let mut o = String::from("\"");
